@@ -169,6 +169,10 @@ def run_harness(ssa_path, fname, params=None, fixlen=None, unwind=10, unwind_by_
     exclude: optional python callable(ctx) -> list of z3 constraints conjoined to every violation query
              (known-finding signatures)."""
     t0 = time.time()
+    if hooks and hooks.get('compact'):
+        # constant-tree compaction by distinct value (see engine/zz.py): per job, each job runs in its own process
+        z3.COMPACT = z3.COMPACT_ITE = True
+        z3.CT_BIG = 200
     prog = load_prog(ssa_path)
     ctx = new_ctx(prog, unwind=unwind, unwind_by_func=unwind_by_func or {})
     ctx.hooks['params'] = params or {}
